@@ -6,7 +6,9 @@ use std::sync::Arc;
 use std::time::Duration;
 
 use crate::cancel::Cancel;
-use crate::coroutine_impl::{co_cancel_data, run_coroutine, CoroutineImpl, EventSource};
+use crate::coroutine_impl::{
+    co_cancel_data, co_get_handle, run_coroutine, CoroutineImpl, EventSource,
+};
 use crate::scheduler::get_scheduler;
 use crate::sync::atomic_dur::AtomicDuration;
 use crate::sync::AtomicOption;
@@ -227,6 +229,9 @@ impl Drop for Park {
 impl EventSource for Park {
     // register the coroutine to the park
     fn subscribe(&mut self, co: CoroutineImpl) {
+        // once the coroutine is registered another thread may run it to its end,
+        // keep its handle so that the cancel data stays valid until we return
+        let _handle = co_get_handle(&co);
         let cancel = co_cancel_data(&co);
         #[cfg(may_verif)]
         may_queue::verif::point(may_queue::verif::site::PARK_SUB_ENTER, Arc::as_ptr(&self.wait_co) as usize);
